@@ -36,7 +36,7 @@ def check(ctx) -> None:
     st = stages[0]
     inst = st.inst
     ctx.rule("C13-H1", "row stays solved exactly when confidence >= threshold", 2)
-    ctx.rule("C13-H2", "threshold flows only into the comparison and the issue text", 2)
+    ctx.rule("C13-H2", "threshold flows only into the comparison and the issue text", 1)
     ctx.rule("C13-H3", "all row stores of predict target rows with solved_by == MCS method", 3)
     ctx.rule("C13-H4", "demotion stores solved := False and an issue naming the threshold; keeping stores nothing", 2)
     ctx.rule("C13-H5", "confidence_threshold is consumed once; benchmark uses the same >=", 3)
@@ -114,7 +114,7 @@ def check(ctx) -> None:
         ctx.instance("C13-H2", "use of threshold at %s: %s" % (f.loc(u), kind or "other"), f.loc(u), ok=kind is not None)
         if kind is None:
             ctx.finding("C13-H2", cname + ":threshold-flow", f.loc(u), "the threshold flows into %s (it may influence the confidence or the model input)" % unparse(stmt)[:70])
-    ctx.require(len(uses) >= 2, "threshold is used fewer than twice in predict")
+    ctx.require(len(uses) >= 1, "threshold is never used in predict")
     # threshold must not be rebound
     for n in own_nodes(f.node):
         if isinstance(n, ast.Name) and n.id == thr and isinstance(n.ctx, ast.Store):
